@@ -374,7 +374,28 @@ def _run_crash(case, stats):
                                     pos, ev[:2], label or "intact", type(e).__name__, e)}
                         break
                     got = _dump_instance(st)
-                    st.finalize()
+                    # the recovering invocation completes -- idle, or after one more update --
+                    # and the start after that must find exactly what it left
+                    upd = rng.random() < 0.3
+                    try:
+                        held = got
+                        if upd:
+                            st.setResultHash("dev/dist/recover/1/workspace", b"r%d" % nimg)
+                            held = _dump_instance(st)
+                        st.finalize()
+                        st2 = BS()
+                        got2 = _dump_instance(st2)
+                        st2.finalize()
+                    except Exception as e:
+                        viol = {"kind": "restart-fails-after-recovery",
+                                "detail": "crash after trace op %d %r, image %s: the first start recovered, the %s invocation completed, "
+                                          "then: %s: %s" % (pos, ev[:2], label or "intact", "updating" if upd else "idle", type(e).__name__, e)}
+                        break
+                    if got2 != held:
+                        viol = {"kind": "state-lost-after-recovery",
+                                "detail": "crash after trace op %d %r, image %s: state loaded after a completed %s invocation differs from "
+                                          "what that invocation held" % (pos, ev[:2], label or "intact", "updating" if upd else "idle")}
+                        break
                 finally:
                     os.chdir(cwd)
                 if empty is None:
